@@ -18,6 +18,7 @@ import (
 // a stale entry: accesses are classified against a graph in which an object
 // leaked on a late path is still local.
 func staleRule(c *core.Ctx, r *core.Report, rule string) {
+	r.Explain(rule + ": in escape.(*functionAnalysisState).ProcessBlock a store ea.F[bb] = V of per-block fixpoint state may be skipped by a function exit only when that exit is taken because ea.F[bb].Matches(V) (same field, same value).")
 	fn := c.Func("analysis/escape", "functionAnalysisState.ProcessBlock")
 	if fn == nil || len(fn.Params) < 2 {
 		r.Fail("infra.anchor-unresolved", rule+"|analysis/escape.functionAnalysisState.ProcessBlock", "", "not found")
